@@ -37,7 +37,7 @@ ObsInit(cfg) ==
    hookSilent |-> FALSE, hookRestored |-> FALSE,
    begun |-> {}, batched |-> {},
    tripped |-> FALSE, trippedH |-> FALSE, mayStart |-> {}, lateStarts |-> 0,
-   ffail |-> FALSE, skipfail |-> FALSE, retriedHookF |-> FALSE,
+   ffail |-> FALSE, skipfail |-> FALSE, retriedHookF |-> FALSE, retriedHookSkip |-> FALSE,
    lastFin |-> [s |-> "", failed |-> FALSE, retry |-> FALSE],
    stats |-> [serialIsolated |-> 0, delayed |-> 0, retried |-> 0, panics |-> 0,
               fullSlots |-> 0, lateInsert |-> 0],
@@ -298,6 +298,7 @@ ObsSc(o, rec) ==
                   !.at[s].pc = "idle", !.at[s].finT = rec.t_us, !.at[s].out = outcome,
                   !.ffail = @ \/ final,
                   !.retriedHookF = @ \/ (retry /\ a.hookF),
+                  !.retriedHookSkip = @ \/ (retry /\ a.hookF /\ a.skipped),
                   !.skipfail = @ \/ (~failed /\ a.skipped /\ ~sc.allow_skipped),
                   !.tripped = @ \/ trip,
                   !.mayStart = IF trip THEN o.batched \ o.begun ELSE @,
@@ -459,7 +460,9 @@ ObsVerdict(o, rec) ==
       expected == FinalFailure(o) \/ (fos /\ o.skipfail)
       \* known shape F1: reported failed although nothing failed finally, and
       \* the only failure counted is a hook failure of an attempt that was retried
-      f1 == rec.failed /\ ~expected /\ o.retriedHookF /\ rec.failed_steps = 0
+      \* (behind FailOnSkipped a skipped step of such a retried attempt is counted failed too)
+      f1 == rec.failed /\ ~expected /\ o.retriedHookF
+            /\ (rec.failed_steps = 0 \/ (fos /\ o.retriedHookSkip))
             /\ rec.parsing_errors = 0 /\ rec.hook_errors > 0
   IN Chk(o, rec, {<<rec.writer_panic = "", "C01", "writer-pipeline-panicked">>,
                   <<rec.writer_panic # "" \/ rec.failed = expected \/ f1, "C01", "verdict-differs-from-final-failure">>,
